@@ -49,7 +49,7 @@ theorem handshake_none_false (it : Item) (h : (handshake it).1 = none) : (handsh
       · rw [if_pos h2] at h; simp at h
       · rw [if_neg h2] at h ⊢
         cases hb : m.body with
-        | undecodable => rfl
+        | undecodable _ => rfl
         | call t => rfl
         | handshake wf ok v => rw [hb] at h; cases wf <;> cases ok <;> cases v <;> simp at h ⊢
 
@@ -68,7 +68,7 @@ theorem handshake_ok_reply (it : Item) (h : (handshake it).2 = true) :
       · rw [if_pos h2] at h; simp at h
       · rw [if_neg h2] at h ⊢
         cases hb : m.body with
-        | undecodable => rw [hb] at h; simp at h
+        | undecodable _ => rw [hb] at h; simp at h
         | call t => rw [hb] at h; simp at h
         | handshake wf ok v =>
           rw [hb] at h
